@@ -70,6 +70,11 @@ type fileState struct {
 	createdBy    int  // instance number that created it
 	writtenSince bool // written since the current StoreLogs begin marker
 	everWritten  bool
+	// residue: the un-fsynced bytes were written by an earlier WAL instance (a call that failed
+	// there, e.g. on a failed fsync) and no call of the current instance has written to the file.
+	// The property speaks of the bytes written for the acknowledged call, so such a file is not
+	// held against a later acknowledgement; it is reported as a statistic instead.
+	residue bool
 }
 
 // Violation of the trace invariant.
@@ -87,9 +92,14 @@ type Stats struct {
 	StoreLogsErr          int
 	SetOK                 int
 	Syscalls              int
+	// AckWithResidue: acknowledgements given while another file still held un-fsynced bytes that a
+	// failed call of an earlier WAL instance had written and a restart had adopted.
+	AckWithResidue int
 	// FsyncInStoreLogs lists, for the thread that issues the markers, the ordinals
 	// (1-based, among that thread's fsync calls) of the fsyncs issued inside StoreLogs calls.
 	FsyncInStoreLogs []int
+	// FirstCommitFsyncs: the subset belonging to the first commit into a newly created file.
+	FirstCommitFsyncs []int
 }
 
 // Check replays the trace of a workload that ran in dir with the given segment size.
@@ -138,6 +148,11 @@ func Check(calls []Sys, dir string, segSize int) (*Violation, Stats) {
 			}
 			if curOp == "Open" && curPhase == "begin" {
 				instance++
+				for _, fs := range files {
+					if fs.dirty {
+						fs.residue = true
+					}
+				}
 			}
 			if curOp == "StoreLogs" && curPhase == "begin" {
 				for _, fs := range files {
@@ -157,7 +172,9 @@ func Check(calls []Sys, dir string, segSize int) (*Violation, Stats) {
 					if !strings.HasSuffix(p, ".wal") || !fs.exists {
 						continue
 					}
-					if fs.dirty {
+					if fs.dirty && fs.residue && !fs.writtenSince {
+						st.AckWithResidue++
+					} else if fs.dirty {
 						return vio("ack-before-fsync", "step %s StoreLogs returned nil while %s has bytes written but not fsynced", step, filepath.Base(p)), st
 					}
 					if fs.writtenSince && !fs.entryDurable {
@@ -172,7 +189,7 @@ func Check(calls []Sys, dir string, segSize int) (*Violation, Stats) {
 				// a truncation that force-sealed the tail commits that seal to the metadata: the index and
 				// commit frames it wrote must have been fsynced by then, like any other commit
 				for p, fs := range files {
-					if strings.HasSuffix(p, ".wal") && fs.exists && fs.dirty {
+					if strings.HasSuffix(p, ".wal") && fs.exists && fs.dirty && !fs.residue {
 						return vio("truncation-ack-before-fsync", "step %s DeleteRange returned nil while %s has bytes written but not fsynced", step, filepath.Base(p)), st
 					}
 				}
@@ -254,6 +271,13 @@ func Check(calls []Sys, dir string, segSize int) (*Violation, Stats) {
 				fsyncOrd++
 				if curOp == "StoreLogs" && curPhase == "begin" {
 					st.FsyncInStoreLogs = append(st.FsyncInStoreLogs, fsyncOrd)
+					// the two fsyncs of a first commit into a new file: the file's while its directory
+					// entry is not durable yet, and the directory's
+					if mm := reFdPath.FindStringSubmatch(c.Args); mm != nil {
+						if fs := files[mm[2]]; mm[2] == dir || (fs != nil && strings.HasSuffix(mm[2], ".wal") && !fs.entryDurable) {
+							st.FirstCommitFsyncs = append(st.FirstCommitFsyncs, fsyncOrd)
+						}
+					}
 				}
 			}
 			m := reFdPath.FindStringSubmatch(c.Args)
@@ -281,6 +305,7 @@ func Check(calls []Sys, dir string, segSize int) (*Violation, Stats) {
 			}
 			if inDir(m[2]) {
 				get(m[2]).dirty = false
+				get(m[2]).residue = false
 			}
 		case "unlinkat", "unlink":
 			q := reQuoted.FindStringSubmatch(c.Args)
